@@ -107,10 +107,11 @@ LEVEL_TEXT = ("Machine-checked proof (Coq 8.16 + std++) over the executable Conf
               "is tied to the code by a differential run: for pairs of reachable configurations the real A.diff(&B) is "
               "dispatched on a clone of A (release profile) and the number of requests, the number rejected and whether "
               "B is reached are compared with the extracted model; the property's oracle is evaluated on the implementation.")
-LEVEL_NOTE = ("PARTIAL: the end-to-end theorem apply_diff (replay (diff A B) A reaches B for all reachable A, B outside the "
-              "known class) is stated but not proved; it is covered by the correspondence runs only. Proved: diff_map "
-              "correctness, diff A A = [], and a machine-checked refutation inside the known class (two tcp/udp "
-              "frontends of one cluster at the same address, open finding). Equality is modulo empty buckets and the order "
-              "inside tcp/udp frontend buckets (order-only differences are a separate open finding). HashSet iteration "
-              "order inside diff is not modelled.")
+LEVEL_NOTE = ("PARTIAL: the end-to-end theorem apply_diff is proved section by section only for the http and https frontend "
+              "sections (apply_diff_fronts) and end to end for configurations differing in those sections only "
+              "(apply_diff_fronts_only); listeners, clusters/backends (through the merge-join, itself proved correct), "
+              "tcp/udp frontends and certificates are covered by the correspondence runs only. Also proved: diff_map "
+              "soundness/completeness for every key order, diff A A = []. Equality is modulo empty buckets and the order "
+              "inside tcp/udp frontend buckets (order-only differences after a diff are an open finding: the Vec order "
+              "depends on HashSet iteration). HashSet iteration order inside diff is not modelled.")
 TECHNIQUE = "Rocq/Coq proof over an executable Gallina model (std++ gmap) + differential correspondence (extracted OCaml vs real crate)"
